@@ -11,15 +11,18 @@ HEADER = ("From Coq Require Import ZArith List.\n"
 CASE_T = "C09.Corr.case"
 PROPS = ["C09/Props.v"]
 CLAUSE = {1: "failed-op-changed-hooks", 2: "not-restored-after-balanced-removal", 3: "call-count",
-          4: "extra-unregister-did-not-raise", 5: "weakref-still-alive", 6: "change-raised", 8: "handler-left-attached-after-its-removals",
+          4: "extra-unregister-did-not-raise", 5: "weakref-still-alive", 6: "change-raised", 8: "handler-left-attached-after-its-removals", 9: "removal-of-live-registration-raised",
           7: "pool-kept-alive"}
 CORR = {1: "outcome-class", 2: "handler-calls", 3: "notifier-lists"}
 
 FNUM = {"value": 2, "f": 3, "g": 4, "kids": 5, "m": 6, "s": 7, "w": 8, "nonexist": 9, "value2": 10, "items": 11,
-        "extra": 13}
+        "extra": 13, "cp": 14}
 F_OBJ = 12
-TRAITS = {"N": ["value", "value2", "f", "g", "kids", "m", "s", "w"], "P": ["value2", "f", "kids", "w"]}
-TRAITS["E"] = TRAITS["N"]      # class E: N with value-based __eq__/__hash__ (all E objects of a case are equal)
+TRAITS = {"N": ["value", "value2", "f", "g", "kids", "m", "s", "w", "cp"], "P": ["value2", "f", "kids", "w"]}
+TRAITS["E"] = TRAITS["N"]
+for _c in ("D1", "D2", "D3"):      # classes whose only class-level registration is @observe(<DECL>)
+    TRAITS[_c] = ["value", "f", "kids"]
+DECL = {"D1": "f:value", "D2": "f.value", "D3": "kids.items.value"}      # class E: N with value-based __eq__/__hash__ (all E objects of a case are equal)
 CK = {"list": "CList", "dict": "CDict", "set": "CSet"}
 MK = {"N": "MNamed", "L": "(MItems CList)", "D": "(MItems CDict)", "S": "(MItems CSet)", "T": "MTA"}
 EXN = {"ValueError": "ValueError", "NotifierNotFound": "NotifierNotFound", "RuntimeError": "RuntimeError"}
@@ -87,6 +90,13 @@ def op_term(op, ob, gt):
     if k in ("Reg", "Unreg"):
         return "(%s %d %d %d %s)" % ("RRegister" if k == "Reg" else "RUnregister", op[1], op[2], op[3],
                                       lst(str(gt.ref(g)) for g in op_graphs(op, ob)))
+    if k == "Copy":
+        # the registration made by __setstate__ for the new object, on the heap in which that object already has the
+        # (shared) children of the original
+        return "(RRegister %d %d 0 %s)" % (op[2], op[3], lst(str(gt.ref(g)) for g in ob["graphs"]))
+    if k == "ReadCp":
+        # reading a cached property must change nothing: the model's no-op step (add_trait of an existing trait)
+        return "(RAddTrait %d 10 [])" % op[1]
     if k == "Change":
         return "(RChange %d %d)" % (op[1], op[2])
     if k == "CollectOwner":
@@ -112,6 +122,8 @@ def heap_term(case, obs):
     for i, d in enumerate(case["objs"]):
         names = TRAITS[d["cls"]]
         links = []
+        if "copy_of" in d:
+            d = dict(case["objs"][d["copy_of"]])
         for nm in ("f", "g"):
             if nm in names and d.get(nm) is not None:
                 links.append("(lk %d [%d])" % (FNUM[nm], d[nm]))
@@ -598,6 +610,23 @@ def corpus():
                            ops=[["Reg", 0, 0, 0, None, text], ["Reg", 1, 0, 0, None, text], ["Change", 2, 2],
                                 ["Unreg", 0, 0, 0, None, text], ["Change", 2, 2], ["CollectObj", 0], ["Change", 2, 2],
                                 ["Unreg", 1, 0, 0, None, text], ["Change", 2, 2], ["Unreg", 1, 0, 0, None, text]]))
+    # the class-level (decorated) registration of an object made by copy.copy (__reduce_ex__ / __setstate__): it must
+    # follow the restored graph and be removable like any other registration
+    for cls, text in DECL.items():
+        objs = [{"cls": cls, "f": 1, "kids": [1, 2]}, {"cls": "N"}, {"cls": "N"}, {"cls": cls, "copy_of": 0}]
+        cs.append(dict(objs=objs, handlers=["decl", "func"],
+                       ops=[["Copy", 0, 3, 0, text], ["Change", 1, 2], ["Change", 2, 2], ["Reg", 3, 1, 0, None, text],
+                            ["Change", 1, 2], ["Unreg", 3, 0, 0, None, text], ["Change", 1, 2], ["Change", 2, 2],
+                            ["Unreg", 3, 0, 0, None, text], ["Unreg", 3, 1, 0, None, text], ["Change", 1, 2]]))
+    # a trait whose value lives only in a cached-property slot: the walk must not depend on whether the cache is filled
+    cpo = [{"cls": "N", "f": 1, "kids": [], "m": [], "s": []}, {"cls": "N", "kids": [], "m": [], "s": []},
+           {"cls": "N", "kids": [], "m": [], "s": []}]
+    for reg in (["Reg", 0, 0, 0, None, "cp.value"], ["Reg", 0, 0, 0, [N_("cp", False, False, [N_("value")])], None]):
+        unreg = ["Unreg"] + reg[1:]
+        cs.append(dict(objs=cpo, handlers=["func"],
+                       ops=[["ReadCp", 0], reg, ["Change", 1, 2], unreg, ["Change", 1, 2], unreg]))
+        cs.append(dict(objs=cpo, handlers=["func"],
+                       ops=[reg, ["Change", 1, 2], ["ReadCp", 0], ["Change", 1, 2], unreg, ["Change", 1, 2], unreg]))
     # every kind of bound-method handler: plain and `async def`; number and nested expression
     g_v = N_("value")
     g_fv = N_("f", True, False, [N_("value")])
